@@ -28,7 +28,7 @@ import random
 
 import numpy as np
 
-from harness import data, sky
+from harness import data, par, sky
 from harness.yawenv import scratch
 
 
@@ -58,6 +58,12 @@ def measure(yaw, sc, expA, expB, work, emb, *, extra=None, order=None, wscale_un
         dref["pid"] = [min(range(len(sc.centres)), key=lambda j: ang_dist(p, cen.data[j])) for p in pts]
         cref = yaw.Catalog.from_dataframe(work / "ref", dref, redshift_name="z", patch_name="pid", **kw)
         cen_kw = dict(patch_centers=cref)
+        derived = cref.get_centers().data
+        for frame_ in (dunk, drnd):
+            for pt in np.deg2rad(frame_[["ra", "dec"]].to_numpy()):
+                dists = sorted(ang_dist(pt, c) for c in derived)
+                if len(dists) > 1 and dists[1] - dists[0] < 1e-9:
+                    return None   # object equidistant from two data-derived centres: the tie-break is not fixed by any property
     else:
         cref = yaw.Catalog.from_dataframe(work / "ref", dref, redshift_name="z", patch_centers=cen, **kw)
         cen_kw = dict(patch_centers=cen)
@@ -95,7 +101,7 @@ def measure(yaw, sc, expA, expB, work, emb, *, extra=None, order=None, wscale_un
     return out
 
 
-def close(a, b, rtol=1e-9, huge=1e8):
+def close(a, b, rtol=1e-9, huge=1e8, lenient=False):
     """Equal up to rounding.  Entries that are undefined in one run (0/0, x/0: a jackknife
     sample without random pairs) are 'degenerate': rounding in the leave-one-out shortcut
     may turn an exact 0 denominator into 1e-16, so inf and an astronomically large number
@@ -105,12 +111,98 @@ def close(a, b, rtol=1e-9, huge=1e8):
         return False
     dega = ~np.isfinite(a) | (np.abs(a) > huge)
     degb = ~np.isfinite(b) | (np.abs(b) > huge)
+    if lenient:
+        # non-integer weight factors: a 0/0 or x/0 entry of the reference run may become any number
+        # (the exact zero turns into a rounding residue); only entries defined in the reference count
+        if np.any(dega & ~degb):
+            return False
+        ok = ~degb
+        scale = max(np.abs(b[ok]).max(initial=0.0), 1.0)
+        return bool(np.all(np.abs(a[ok] - b[ok]) <= rtol * scale))
     if not np.array_equal(dega, degb):
         return False
     ok = ~dega
     # amplitudes are ratios minus one: their natural scale is 1 (values near 0 arise by cancellation)
     scale = max(np.abs(a[ok]).max(initial=0.0), 1.0)
     return bool(np.all(np.abs(a[ok] - b[ok]) <= rtol * scale))
+
+
+def case_job(ctx, job) -> None:
+    import shutil
+    from pathlib import Path
+
+    yaw = data.import_yaw()
+    case, A, B, sc, root, seed = job
+    root = Path(root)
+    rng = random.Random(seed)
+    embs = list(sky.EMBEDDINGS)
+    nc = len(sc.centres)
+    try:
+        _case(ctx, yaw, case, A, B, sc, root, rng, embs, nc)
+    finally:
+        shutil.rmtree(root, ignore_errors=True)
+
+
+def _case(ctx, yaw, case, A, B, sc, root, rng, embs, nc) -> None:
+        base = measure(yaw, sc, A, B, root / "w", "equator")
+        nontriv = bool(np.isfinite(base["amp"]).any())
+        detail = dict(data=[dict(o) for o in A["ref"]], unknown=[dict(o) for o in A["unk"]], randoms=[dict(o) for o in B["unk"]])
+        if case < 3:
+            ctx.sample(dict(detail, base_amplitude=[float(x) for x in base["amp"]]))
+        transforms = []
+        for emb in embs[1:]:
+            transforms.append((f"rotation:{emb}", dict(emb=emb)))
+        transforms.append(("rotation:random", dict(emb="equator", extra=rand_rotation(rng))))
+        transforms.append(("rows_shuffled", dict(emb="equator", order=rng.randrange(1 << 20))))
+        transforms.append(("rows_shuffled+rotation", dict(emb="meridian_pole", order=rng.randrange(1 << 20))))
+        transforms.append(("weights_unknown_x3", dict(emb="equator", wscale_unk=3.0)))
+        transforms.append(("weights_reference_x0.37", dict(emb="equator", wscale_ref=0.37)))
+        for perm in list(itertools.permutations(range(nc)))[1:]:
+            transforms.append((f"centres_permuted", dict(emb="equator", perm=perm)))
+        transforms.append(("inherited_centres:pole", dict(emb="meridian_pole", inherit=True)))
+        transforms.append(("inherited_centres:tilted", dict(emb="tilted", inherit=True)))
+        base_inh = None
+        for name, kw in transforms:
+            ref = base
+            if kw.get("inherit"):
+                if base_inh is None:
+                    try:
+                        base_inh = measure(yaw, sc, A, B, root / "w", "equator", inherit=True) or "skip"
+                    except ValueError:
+                        base_inh = "skip"     # a data-derived centre attracts no object of another catalog: creation refused
+                if base_inh == "skip":
+                    continue
+                ref = base_inh
+            try:
+                got = measure(yaw, sc, A, B, root / "w", **kw)
+            except Exception as exc:  # noqa: BLE001
+                ctx.violation(f"C13|{name.split(':')[0]}|raises_{type(exc).__name__}", dict(detail, transform=name, error=repr(exc)[:200]))
+                continue
+            if got is None:
+                continue
+            ctx.evaluated(1, (case, name) if nontriv else None)
+            ctx.validated(1)
+            perm = kw.get("perm")
+            exp_samples, exp_nzs, exp_auto = ref["samples"], ref["nz_samples"], ref["auto_samples"]
+            if perm is not None:
+                exp_auto = ref["auto_samples"][list(perm)]
+                # real patch k = model patch perm[k]: jackknife sample k leaves out that patch
+                exp_samples = ref["samples"][list(perm)]
+                exp_nzs = ref["nz_samples"][list(perm)]
+            checks = [("amplitude", got["amp"], ref["amp"]), ("jackknife_samples", got["samples"], exp_samples),
+                      ("covariance", got["cov"], ref["cov"]), ("redshift_estimate", got["nz"], ref["nz"]),
+                      ("redshift_estimate_samples", got["nz_samples"], exp_nzs),
+                      ("autocorrelation_amplitude", got["auto_amp"], ref["auto_amp"]), ("autocorrelation_samples", got["auto_samples"], exp_auto)]
+            for what, g, e in checks:
+                if not close(g, e, lenient=name.startswith("weights_")):
+                    ctx.violation(f"C13|{name.split(':')[0]}|{what}_changes", dict(detail, transform=name, got=np.asarray(g).tolist(), expected=np.asarray(e).tolist()))
+                    break
+        # additivity of raw counts under a split of the unknown catalog
+        sp = measure(yaw, sc, A, B, root / "w", "equator", split=True)
+        if sp is not None:
+            ctx.evaluated(1, (case, "split"))
+            if not np.array_equal(sp["dd_counts"], base["dd_counts"]):
+                ctx.violation("C13|catalog_split|raw_counts_not_additive", dict(detail, halves_sum=sp["dd_counts"].tolist(), whole=base["dd_counts"].tolist()))
 
 
 def run(ctx) -> None:
@@ -134,64 +226,15 @@ def run(ctx) -> None:
     # data scenarios with counts in both bins and across patches
     good = [e for e in scen if all(any(v for row in b for v in row) for b in e["cross"][0]) and any(e["cross"][0][b][i][j] for b in range(2) for i in range(2) for j in range(2) if i != j)]
     ctx.require(len(good) > 10, f"too few rich scenarios ({len(good)} of {len(scen)})")
-    ncase = 5 if quick else 40
+    ncase = 24 if quick else 200
     embs = list(sky.EMBEDDINGS)
     nc = len(sc.centres)
     with scratch("c13_") as root:
+        jobs = []
         for case in range(ncase):
             A, B = rng.choice(good), rng.choice(good)
-            base = measure(yaw, sc, A, B, root / "w", "equator")
-            nontriv = bool(np.isfinite(base["amp"]).any())
-            detail = dict(data=[dict(o) for o in A["ref"]], unknown=[dict(o) for o in A["unk"]], randoms=[dict(o) for o in B["unk"]])
-            if case < 3:
-                ctx.sample(dict(detail, base_amplitude=[float(x) for x in base["amp"]]))
-            transforms = []
-            for emb in embs[1:]:
-                transforms.append((f"rotation:{emb}", dict(emb=emb)))
-            transforms.append(("rotation:random", dict(emb="equator", extra=rand_rotation(rng))))
-            transforms.append(("rows_shuffled", dict(emb="equator", order=rng.randrange(1 << 20))))
-            transforms.append(("rows_shuffled+rotation", dict(emb="meridian_pole", order=rng.randrange(1 << 20))))
-            transforms.append(("weights_unknown_x3", dict(emb="equator", wscale_unk=3.0)))
-            transforms.append(("weights_reference_x0.37", dict(emb="equator", wscale_ref=0.37)))
-            for perm in list(itertools.permutations(range(nc)))[1:]:
-                transforms.append((f"centres_permuted", dict(emb="equator", perm=perm)))
-            transforms.append(("inherited_centres:pole", dict(emb="meridian_pole", inherit=True)))
-            transforms.append(("inherited_centres:tilted", dict(emb="tilted", inherit=True)))
-            base_inh = None
-            for name, kw in transforms:
-                ref = base
-                if kw.get("inherit"):
-                    if base_inh is None:
-                        base_inh = measure(yaw, sc, A, B, root / "w", "equator", inherit=True)
-                    ref = base_inh
-                try:
-                    got = measure(yaw, sc, A, B, root / "w", **kw)
-                except Exception as exc:  # noqa: BLE001
-                    ctx.violation(f"C13|{name.split(':')[0]}|raises_{type(exc).__name__}", dict(detail, transform=name, error=repr(exc)[:200]))
-                    continue
-                ctx.evaluated(1, (case, name) if nontriv else None)
-                ctx.validated(1)
-                perm = kw.get("perm")
-                exp_samples, exp_nzs, exp_auto = ref["samples"], ref["nz_samples"], ref["auto_samples"]
-                if perm is not None:
-                    exp_auto = ref["auto_samples"][list(perm)]
-                    # real patch k = model patch perm[k]: jackknife sample k leaves out that patch
-                    exp_samples = ref["samples"][list(perm)]
-                    exp_nzs = ref["nz_samples"][list(perm)]
-                checks = [("amplitude", got["amp"], ref["amp"]), ("jackknife_samples", got["samples"], exp_samples),
-                          ("covariance", got["cov"], ref["cov"]), ("redshift_estimate", got["nz"], ref["nz"]),
-                          ("redshift_estimate_samples", got["nz_samples"], exp_nzs),
-                          ("autocorrelation_amplitude", got["auto_amp"], ref["auto_amp"]), ("autocorrelation_samples", got["auto_samples"], exp_auto)]
-                for what, g, e in checks:
-                    if not close(g, e):
-                        ctx.violation(f"C13|{name.split(':')[0]}|{what}_changes", dict(detail, transform=name, got=np.asarray(g).tolist(), expected=np.asarray(e).tolist()))
-                        break
-            # additivity of raw counts under a split of the unknown catalog
-            sp = measure(yaw, sc, A, B, root / "w", "equator", split=True)
-            if sp is not None:
-                ctx.evaluated(1, (case, "split"))
-                if not np.array_equal(sp["dd_counts"], base["dd_counts"]):
-                    ctx.violation("C13|catalog_split|raw_counts_not_additive", dict(detail, halves_sum=sp["dd_counts"].tolist(), whole=base["dd_counts"].tolist()))
+            jobs.append((case, A, B, sc, str(root / f"case{case}"), rng.randrange(1 << 30)))
+        par.pmap(ctx, case_job, jobs)
         dense_inherited(ctx, yaw, root, rng)
     ctx.require(not close([1.0, 2.0], [1.0, 2.0 + 1e-6]), "comparator too loose")
 
